@@ -74,11 +74,23 @@ func run(e *harness.Env) {
 		applySpace(e)
 	}
 	if want("chunker") {
-		chunkerSpace(e)
+		chunkerSpace(e, L-1)
 	}
 	if want("docchunk") {
-		docChunkSpace(e)
+		docChunkSpace(e, L-1)
 	}
+}
+
+// fail records a failing case. Every failing descriptor is kept (known-finding matching needs it),
+// but the detail text and input files only for the first 200 cases of a signature per worker.
+var failSeen = map[string]int{}
+
+func fail(e *harness.Env, desc, sig, det string, files map[string][]byte) {
+	failSeen[sig]++
+	if failSeen[sig] > 200 && !e.Replaying() {
+		det, files = "(detail omitted after 200 cases of this signature in this worker; replay the case to see it)", nil
+	}
+	e.Fail(desc, sig, det, files)
 }
 
 // ---- configuration grid ---------------------------------------------------------------------
@@ -237,12 +249,12 @@ func splitSpace(e *harness.Env, L int) {
 				sig, det := harness.Guard(func() { pieces = sc.SplitToSize(t.s, nil) })
 				files := map[string][]byte{"input.txt": []byte(t.s)}
 				if sig != "" {
-					e.Fail(desc, sig, det, files)
+					fail(e, desc, sig, det, files)
 					return
 				}
 				bound := boundApplies(u.u, lim, t.gap)
 				if sig, det := checkPieces(t.stripped, pieces, bound, u.u, lim, tp.v); sig != "" {
-					e.Fail(desc, sig, det, files)
+					fail(e, desc, sig, det, files)
 					return
 				}
 				e.Max("max_pieces", int64(len(pieces)))
@@ -289,11 +301,11 @@ func pointSpace(e *harness.Env, L int) {
 				files := map[string][]byte{"input.txt": []byte(t.s)}
 				switch {
 				case sig != "":
-					e.Fail(desc, sig, det, files)
+					fail(e, desc, sig, det, files)
 				case p < 0 || p > len(t.s):
-					e.Fail(desc, "split-point-out-of-range", fmt.Sprintf("split point %d outside [0,%d]", p, len(t.s)), files)
+					fail(e, desc, "split-point-out-of-range", fmt.Sprintf("split point %d outside [0,%d]", p, len(t.s)), files)
 				case p < len(t.s) && !utf8.RuneStart(t.s[p]):
-					e.Fail(desc, "split-point-inside-character", fmt.Sprintf("split point %d lies inside a multi-byte character: head %s | tail %s", p, show(t.s[:p]), show(t.s[p:])), files)
+					fail(e, desc, "split-point-inside-character", fmt.Sprintf("split point %d lies inside a multi-byte character: head %s | tail %s", p, show(t.s[:p]), show(t.s[p:])), files)
 				case p == len(t.s):
 					e.Pass(desc, false, "point:whole")
 				default:
@@ -352,12 +364,12 @@ func boundarySpace(e *harness.Env) {
 				})
 				files := map[string][]byte{"input.txt": []byte(joined)}
 				if sig != "" {
-					e.Fail(desc, sig, dt, files)
+					fail(e, desc, sig, dt, files)
 					return
 				}
 				bound := boundApplies(u.u, lim, t.gap)
 				if sig, dt := checkPieces(t.stripped, pieces, bound, u.u, lim, tp.v); sig != "" {
-					e.Fail(desc, sig, fmt.Sprintf("%d boundaries supplied\n%s", nb, dt), files)
+					fail(e, desc, sig, fmt.Sprintf("%d boundaries supplied\n%s", nb, dt), files)
 					return
 				}
 				oc := "bnd:pieces=" + bucket(len(pieces))
@@ -466,15 +478,15 @@ func overlapSpace(e *harness.Env, L int) {
 			sig, det := harness.Guard(func() { res = rag.NewOverlapGeneratorWithConfig(oc.cfg).GenerateOverlap(t.s) })
 			files := map[string][]byte{"input.txt": []byte(t.s)}
 			if sig != "" {
-				e.Fail(desc, sig, det, files)
+				fail(e, desc, sig, det, files)
 				continue
 			}
 			if res == nil {
-				e.Fail(desc, "nil-overlap-result", "GenerateOverlap returned nil", files)
+				fail(e, desc, "nil-overlap-result", "GenerateOverlap returned nil", files)
 				continue
 			}
 			if sig, det := checkOverlap(res.Text, t.stripped, oc.cfg.MaxOverlap); sig != "" {
-				e.Fail(desc, sig, det, files)
+				fail(e, desc, sig, det, files)
 				continue
 			}
 			switch {
@@ -550,7 +562,7 @@ func applySpace(e *harness.Env) {
 				sig, det := harness.Guard(func() { res = rag.ApplyOverlapToChunks(chunks, cfg) })
 				files := map[string][]byte{"chunks.txt": []byte(strings.Join(own, "\n=====\n"))}
 				if sig != "" {
-					e.Fail(desc, sig, det, files)
+					fail(e, desc, sig, det, files)
 					continue
 				}
 				title := ""
@@ -559,7 +571,7 @@ func applySpace(e *harness.Env) {
 				}
 				sig, det, n := checkApplied(own, res, cfg.MaxOverlap, func(int) string { return title })
 				if sig != "" {
-					e.Fail(desc, sig, det, files)
+					fail(e, desc, sig, det, files)
 					continue
 				}
 				e.Pass(desc, n > 0, "apply:overlapped="+bucket(n))
